@@ -546,24 +546,34 @@ def _join_weaken(cur, v, new):
     extra = []
     # flag implications ("v truthy => atoms"): the join implies what both sides imply; a side on which the flag is known
     # to be zero implies everything
-    for a in cur:
-        if a[0] != "imp" or a in new:
-            continue
-        other = None
-        for b in v:
-            if b[0] == "imp" and b[1] == a[1]:
-                other = b
-                break
-        if other is None:
-            continue
-        if a[2] is None:
-            extra.append(other)
-        elif other[2] is None:
-            extra.append(a)
-        else:
-            both = a[2] & other[2]
-            if both:
-                extra.append(("imp", a[1], both))
+    def _imp_of(st, k):
+        for b in st:
+            if b[0] == "imp" and b[1] == k:
+                return b
+        if ("cmp", k, "==", 0) in st:
+            return ("imp", k, None)
+        return None
+    for side, oth in ((cur, v), (v, cur)):
+        for a in side:
+            if a[0] != "imp" or a in new:
+                continue
+            other = _imp_of(oth, a[1])
+            if other is None:
+                continue
+            if a[2] is None:
+                if other[2] is not None:
+                    extra.append(other)
+            elif other[2] is None:
+                extra.append(a)
+            else:
+                both = a[2] & other[2]
+                if both:
+                    extra.append(("imp", a[1], both))
+    # vacuous-verdict marker of rule modules: ("ev", "vg0") on one side lets the other side's ("ev", "vg", X) tokens through
+    VG0 = ("ev", "vg0")
+    if (VG0 in cur) != (VG0 in v):
+        src = v if VG0 in cur else cur
+        extra += [a for a in src if a[0] == "ev" and len(a) >= 3 and a[1] == "vg"]
     for a in cur:
         if a[0] != "rel" or a in new or a[2] not in _REL_SIGNS:
             continue
@@ -892,6 +902,77 @@ def predicate_summary(prog, name, near, depth=0):
     return res
 
 
+_PRED2_CACHE = {}
+
+
+def predicate_paths(prog, name, near, may_throw):
+    """(callee, atoms implied by a truthy return, atoms implied by a falsy return) for a helper without side effects whose
+    returns are constants or pure expressions guarded by pure conditions over its parameters (if (A) return 1; if (B)
+    return 1; return 0;): the facts in force at the returns, intersected per outcome; None if the helper writes anything"""
+    g = prog.get(name, near=near) if name else None
+    if g is None or may_throw is None:
+        return None
+    ck = (prog.config, id(g))
+    if ck in _PRED2_CACHE:
+        return _PRED2_CACHE[ck]
+    _PRED2_CACHE[ck] = None       # recursion guard
+    res = None
+    ok = len(g.params) <= 6 and len(g.blocks) <= 40
+    rets = 0
+    if ok:
+        for el in g.all_elements():
+            e = el.e
+            if e[0] == "ret":
+                rets += 1
+            for sub in ir.walk(g, e):
+                if sub[0] in ("=", "o=", "d", "ds") or (sub[0] == "u" and sub[1] in ("++", "--", "p++", "p--")):
+                    ok = False
+                elif sub[0] == "c" and not (isinstance(sub[1], str) and (sub[1] in PURE_CALLS or PURE_PREDICATE.match(sub[1]))):
+                    ok = False
+    if ok and rets >= 2:
+        from . import xcfg as _x
+        try:
+            xg = _x.XCFG(g, may_throw)
+            F = Facts(prog, xg)
+        except Exception:
+            xg = None
+        if xg is not None:
+            T = Fz = None
+            pset = set(g.params)
+            good = True
+            for p, st in normal_exit_states(F, xg):
+                if not (p.kind == "el" and p.el.e[0] == "ret" and p.el.e[1] is not None):
+                    good = False
+                    break
+                rk = key(g, p.el.e[1])
+                at = frozenset(a for a in st if a[0] in ("cmp", "rel") and atom_vars(a) <= pset)
+                if isinstance(rk, tuple) and rk[0] == "i":
+                    if rk[1] != 0:
+                        T = at if T is None else (T & at)
+                    else:
+                        Fz = at if Fz is None else (Fz & at)
+                elif isinstance(rk, tuple) and _pure_key(rk) and key_vars(rk) <= pset:
+                    t1 = at | frozenset(key_atoms(rk, True))
+                    f1 = at | frozenset(key_atoms(rk, False))
+                    T = t1 if T is None else (T & t1)
+                    Fz = f1 if Fz is None else (Fz & f1)
+                else:
+                    good = False
+                    break
+            if good:
+                res = (g, T or frozenset(), Fz or frozenset())
+    _PRED2_CACHE[ck] = res
+    return res
+
+
+def _subst_atom(a, m):
+    if a[0] == "cmp":
+        return ("cmp", _subst(a[1], m), a[2], a[3])
+    if a[0] == "rel":
+        return ("rel", _subst(a[1], m), a[2], _subst(a[3], m))
+    return a
+
+
 def _subst(k, m):
     if not isinstance(k, tuple):
         return k
@@ -900,11 +981,13 @@ def _subst(k, m):
     return tuple(_subst(x, m) if isinstance(x, tuple) else x for x in k)
 
 
-def expand_predicates(prog, fn, atoms, depth=0):
+def expand_predicates(prog, fn, atoms, depth=0, may_throw=None):
     """atoms about the truth of a call to a pure predicate helper: the same about the expression it returns"""
     out = list(atoms)
     if prog is None or depth > 2:
         return out
+    if may_throw is None and CURRENT is not None:
+        may_throw = getattr(CURRENT.g, "may_throw", None)
     for a in atoms:
         if a[0] != "cmp" or not (isinstance(a[1], tuple) and a[1] and a[1][0] == "c" and isinstance(a[1][1], str)):
             continue
@@ -913,6 +996,10 @@ def expand_predicates(prog, fn, atoms, depth=0):
             continue
         ps = predicate_summary(prog, a[1][1], fn)
         if ps is None:
+            pp = predicate_paths(prog, a[1][1], fn, may_throw)
+            if pp is not None and len(a[1][2]) == len(pp[0].params):
+                m = {pv: a[1][2][i] for i, pv in enumerate(pp[0].params)}
+                out += [_subst_atom(x, m) for x in (pp[1] if truth else pp[2])]
             continue
         g, rk = ps
         args = a[1][2]
@@ -1030,7 +1117,7 @@ class Facts:
                                 if b[0] == "cmp" and b[1] == a[1] and entails(b[2], b[3], NEG[a[2]], a[3]):
                                     return INFEASIBLE
                     atoms = derive_atoms(atoms, s)
-                    atoms = expand_predicates(self.prog, self.fn, atoms)
+                    atoms = expand_predicates(self.prog, self.fn, atoms, may_throw=getattr(self.g, "may_throw", None))
                     atoms = expand_flags(atoms, s)
                     if self.edge_gen:
                         self.edge_state = s
@@ -1041,7 +1128,7 @@ class Facts:
         elif node.kind == "br" and isinstance(label, tuple) and label[0] == "case":
             t = node.info.get("term")
             if t and t.get("c") is not None and isinstance(label[1], int):
-                atoms = [("cmp", key(self.fn, t["c"]), "==", label[1])]
+                atoms = derive_atoms([("cmp", key(self.fn, t["c"]), "==", label[1])], s)
                 if self.edge_gen:
                     self.edge_state = s
                     atoms = atoms + list(self.edge_gen(node, label, atoms) or ())
